@@ -78,7 +78,12 @@ struct State {
     rr_count: u32,
     // bookkeeping for coverage measures
     parked_site: Vec<u32>,
-    in_exec: Vec<bool>,
+    /// 0 = not inside an execution; 1 + scope depth for an execution in an own scope; 100 = on the shared root
+    in_exec: Vec<u8>,
+    /// iteration variable of the comprehension body a thread is currently inside (as announced by stub `yc`)
+    comp_var: Vec<Option<String>>,
+    same_comp_var_overlaps: u64,
+    root_exec_while_other_in_depth3: u64,
     switches_while_two_in_exec: u64,
     preempt_pairs: BTreeSet<(u32, u32)>,
     switch_digest: u64,
@@ -113,6 +118,8 @@ pub struct SchedStats {
     pub site_switches: Vec<u64>,
     pub futex_waits: u64,
     pub futex_wakes: u64,
+    pub same_comp_var_overlaps: u64,
+    pub root_exec_while_other_in_depth3: u64,
 }
 
 impl Sched {
@@ -159,7 +166,10 @@ impl Sched {
                 change_points,
                 rr_count: 0,
                 parked_site: vec![u32::MAX; n],
-                in_exec: vec![false; n],
+                in_exec: vec![0; n],
+                comp_var: vec![None; n],
+                same_comp_var_overlaps: 0,
+                root_exec_while_other_in_depth3: 0,
                 switches_while_two_in_exec: 0,
                 preempt_pairs: BTreeSet::new(),
                 switch_digest: 0xcbf2_9ce4_8422_2325,
@@ -268,7 +278,7 @@ impl Sched {
 
     fn note_switch(st: &mut State, from: usize, to: usize, site: u32) {
         st.switches += 1;
-        let n_in_exec = st.in_exec.iter().filter(|x| **x).count();
+        let n_in_exec = st.in_exec.iter().filter(|x| **x != 0).count();
         if n_in_exec >= 2 {
             st.switches_while_two_in_exec += 1;
         }
@@ -351,36 +361,56 @@ impl Sched {
         }
     }
 
-    pub fn set_in_exec(&self, tid: usize, v: bool) {
+    pub fn set_in_exec(&self, tid: usize, v: u8) {
         let _g = InSched::enter();
         let mut st = self.m.lock().unwrap();
         st.in_exec[tid] = v;
+        if v == 0 {
+            st.comp_var[tid] = None;
+        }
+        if v == 100 && (0..st.n).any(|t| t != tid && st.in_exec[t] == 4) {
+            st.root_exec_while_other_in_depth3 += 1;
+        }
+        if v == 4 && (0..st.n).any(|t| t != tid && st.in_exec[t] == 100) {
+            st.root_exec_while_other_in_depth3 += 1;
+        }
+    }
+
+    /// Stub `yc` announces that thread `tid` is inside a comprehension body iterating `var`.
+    pub fn note_comp_var(&self, tid: usize, var: &str) {
+        let _g = InSched::enter();
+        let mut st = self.m.lock().unwrap();
+        if (0..st.n).any(|t| t != tid && st.comp_var[t].as_deref() == Some(var)) {
+            st.same_comp_var_overlaps += 1;
+        }
+        st.comp_var[tid] = Some(var.to_string());
     }
 
     /// A scheduling point reached by thread `tid`. Returns the number of instrumented edges until
     /// this thread's next edge decision (0 = none).
-    pub fn yield_point(&self, tid: usize, site: u32) -> u32 {
+    pub fn yield_point(&self, tid: usize, site: u32) -> (u32, bool) {
         let _g = InSched::enter();
         let mut st = self.m.lock().unwrap();
         if st.free_run {
-            return st.fine_gap;
+            return (st.fine_gap, false);
         }
         if st.current != tid {
             // can only happen for a thread the simulator lost track of (e.g. after a wait that went
             // to the kernel): wait for the baton rather than run beside its holder
             st = self.park_until_current(st, tid);
             if st.free_run {
-                return st.fine_gap;
+                return (st.fine_gap, false);
             }
         }
         if st.decisions >= st.max_decisions {
             // I6: bounded progress exceeded. Stop scheduling; let everything run out.
             st.overrun = true;
             self.release_everyone(&mut st);
-            return st.fine_gap;
+            return (st.fine_gap, false);
         }
         let next = Self::choose(&mut st, tid).unwrap_or(tid);
         st.trace.push(next as u8);
+        let switched = next != tid;
         if next != tid {
             st.parked_site[tid] = site;
             Self::note_switch(&mut st, tid, next, site);
@@ -389,7 +419,7 @@ impl Sched {
             st = self.park_until_current(st, tid);
             st.parked_site[tid] = u32::MAX;
         }
-        Self::draw_gap(&mut st)
+        (Self::draw_gap(&mut st), switched)
     }
 
     /// The code under test is about to block in FUTEX_WAIT on `addr` (the caller has already checked
@@ -445,7 +475,8 @@ impl Sched {
         let _g = InSched::enter();
         let mut st = self.m.lock().unwrap();
         st.status[tid] = Status::Finished;
-        st.in_exec[tid] = false;
+        st.in_exec[tid] = 0;
+        st.comp_var[tid] = None;
         if st.free_run {
             return;
         }
@@ -496,6 +527,8 @@ impl Sched {
             site_switches: st.site_switches.to_vec(),
             futex_waits: st.futex_waits,
             futex_wakes: st.futex_wakes,
+            same_comp_var_overlaps: st.same_comp_var_overlaps,
+            root_exec_while_other_in_depth3: st.root_exec_while_other_in_depth3,
         }
     }
 }
